@@ -20,12 +20,14 @@ Any difference is a violation, whether the call returned or raised.
 """
 import os
 import shutil
+import time
 
 from vtlmc import c22_snap as S
 from vtlmc import c22_space as SP
 from vtlmc import harness
 
-CHUNK = 120
+CHUNK = 60
+DEFAULT_BUDGET_S = 1500
 
 _ERR_CLASS = {"VTLSyntaxError": "syntax-error", "SemanticError": "semantic-error", "DataLoadError": "load-error",
               "RunTimeError": "runtime-error", "InputValidationException": "input-error"}
@@ -57,6 +59,7 @@ def execute(c, workdir):
     import vtlengine.API as A
     b = SP.build(c, workdir)
     keep = []
+    b["description"] = describe_call(c, b)      # rendered before the call: afterwards the arguments may differ
     before = {k: S.snap(v, keep) for k, v in b["owned"].items()}
     out = harness.call(getattr(A, c["fn"]), *b["args"], **b["kwargs"])
     after = {k: S.snap(v) for k, v in b["owned"].items()}
@@ -104,6 +107,10 @@ def describe_call(c, b):
         import pandas as pd
         if isinstance(v, pd.DataFrame):
             return "DataFrame(columns=%r, index=%r, dtypes=%s)" % (list(v.columns), list(v.index), [str(x) for x in v.dtypes])
+        if isinstance(v, dict) and "datasets" in v:
+            return "{'datasets': [%s]%s}" % (
+                ", ".join("%s(%s)" % (d.get("name"), ",".join(x["name"] for x in d.get("DataStructure", []))) for d in v["datasets"]),
+                ", 'scalars': [%s]" % ",".join(x["name"] for x in v["scalars"]) if v.get("scalars") else "")
         if isinstance(v, dict):
             return "{" + ", ".join("%r: %s" % (k, br(x)) for k, x in v.items()) + "}"
         if isinstance(v, (list, tuple)):
@@ -116,10 +123,7 @@ def describe_call(c, b):
 
 def run_case(c, rec, workdir):
     stub0 = SP.STUB_CALLS["n"]
-    try:
-        b, out, before, muts = execute(c, workdir)
-    finally:
-        pass
+    b, out, before, muts = execute(c, workdir)
     oc = observed_class(out)
     nodes = {}
     for s in before.values():
@@ -153,14 +157,18 @@ def run_case(c, rec, workdir):
         seen.add(fk)
         what = ("%s %s (call %s): caller's %s at %s: %s -- expected: argument unchanged. Call: %s" % (
             c["fn"], "returned" if oc == "ok" else "raised " + (out[2] + ("/" + str(out[3]) if out[3] else "")),
-            SP.case_id(c), d["node"].get("pytype", d["node"]["t"]), d["path"], d["detail"], describe_call(c, b)))
+            SP.case_id(c), d["node"].get("pytype", d["node"]["t"]), d["path"], d["detail"], b["description"]))
         rec.violation(fk, what, {"case": c, "key": fk})
     return oc, muts
 
 
-def _work(chunk, rec):
+def _work(item, rec):
+    deadline, chunk = item
     base = os.path.join(harness.scratch(), "c22", "w%d" % os.getpid())
     for i, c in enumerate(chunk):
+        if deadline is not None and time.time() > deadline:
+            rec.count("cases_skipped_budget", len(chunk) - i)
+            return
         wd = os.path.join(base, "c%d" % i)
         shutil.rmtree(wd, ignore_errors=True)
         try:
@@ -366,14 +374,24 @@ class Check:
         harness.boot()
         if not oracle_selftest(rec):
             return {"exhaustive": False}
-        cases = SP.space(tier)
+        first, rest = SP.space(tier)
         full = sum(1 for _ in SP.full_space())
-        ordered = harness.seeded_order(cases, seed)
-        harness.pmap(_work, list(harness.chunks(ordered, CHUNK)), rec)
+        budget = float(os.environ.get("VTLMC_C22_BUDGET_S", DEFAULT_BUDGET_S))
+        t0 = time.time()
+        # the quick sub-lattice: always complete (both tiers)
+        harness.pmap(_work, [(None, ch) for ch in harness.chunks(harness.seeded_order(first, seed), CHUNK)], rec)
+        if rest:
+            deadline = (t0 + budget) if budget > 0 else None
+            harness.pmap(_work, [(deadline, ch) for ch in harness.chunks(harness.seeded_order(rest, seed), CHUNK)], rec)
+        cases = first + rest
+        skipped = rec.counters.get("cases_skipped_budget", 0)
         done = sum(v for k, v in rec.counters.items() if k.startswith("calls:"))
+        if skipped:
+            rec.note("budget of %.0f s exhausted: %d of %d cases executed (the quick sub-lattice of %d completely), %d skipped"
+                     % (budget, done, len(cases), len(first), skipped))
         # non-vacuity
-        if done != len(cases):
-            rec.tool_error("executed %d of %d cases" % (done, len(cases)))
+        if done + skipped != len(cases):
+            rec.tool_error("executed %d + skipped %d of %d cases" % (done, skipped, len(cases)))
         for name in ("frames_snapshotted", "files_snapshotted", "containers_snapshotted", "url_stub_calls"):
             if not rec.counters.get(name):
                 rec.tool_error("mechanism never exercised: %s = 0" % name)
@@ -386,8 +404,9 @@ class Check:
                     rec.tool_error("no %s call reached the intended outcome class %s" % (fn, oc))
         for k in [k for k in rec.counters if k.startswith("met:")]:
             del rec.counters[k]
-        return {"exhaustive": True, "cases_in_tier": len(cases), "cases_in_full_space": full,
-                "tier_is_full_space": len(cases) == full,
+        return {"exhaustive": skipped == 0, "cases_in_tier": len(cases), "cases_executed": done,
+                "cases_skipped_budget": skipped, "cases_in_full_space": full,
+                "tier_is_full_space": len(cases) == full, "budget_s": budget if rest else None,
                 "axes": {"functions": list(SP.FUNCS), "script_kinds": list(SP.SCRIPT_KINDS), "outcomes": list(SP.OUTCOMES),
                          "data_structures": list(SP.DS_KINDS), "datapoints_frame_kinds": list(SP.DP_FRAME_KINDS),
                          "datapoints_path_kinds": list(SP.DP_PATH_KINDS), "frame_variants": list(SP.FRAME_VARIANTS),
